@@ -32,6 +32,7 @@ fn interval_case(own_to: u32, own_ka: Option<u32>, advs: &[u32], stream: u64) ->
     let mut out = vec![];
     let base = json!({"op":"interval","own_to":own_to,"own_ka":own_ka.map(|k| k as i64).unwrap_or(-1),"advs":advs});
     let mut sim: Sim<Packet> = Sim::new(stream);
+    sim.trace_sample(stream, 400, 60_000);
     let mk = |mut v: Value, res: &str, d: i64, adv_seen: Vec<u64>| {
         v["res"] = json!(res);
         v["d"] = json!(d);
@@ -59,6 +60,7 @@ fn interval_case(own_to: u32, own_ka: Option<u32>, advs: &[u32], stream: u64) ->
     for _ in 0..6 {
         sim.now += 1;
         crate::util::MockTimeSource::set_time(sim.now);
+        sim.note_time();
         for i in 0..sim.nodes.len() {
             let r = sim.housekeep(i);
             if i == 0 {
@@ -124,6 +126,7 @@ fn count_removals(sim: &mut Sim<Packet>, secs: i64) -> (u64, Value, u64) {
 
 fn hetero_case(timeouts: &[u32], secs: i64, stream: u64) -> Value {
     let mut sim: Sim<Packet> = Sim::new(stream);
+    sim.trace_sample(stream, 400, 60_000);
     for t in timeouts {
         if try_add(&mut sim, &cfg_with(*t, None)).is_err() {
             return json!({"op":"hetero","timeouts":timeouts,"secs":secs,"res":"panic-config","removals":0,"first":"none","panics":1,"mesh":false});
@@ -145,6 +148,7 @@ fn hetero_case(timeouts: &[u32], secs: i64, stream: u64) -> Value {
 /// (it applies its own timeout), and the second one is refreshed often enough by the first
 fn hetero_ka_case(timeouts: &[u32], ka: u32, secs: i64, stream: u64) -> Value {
     let mut sim: Sim<Packet> = Sim::new(stream);
+    sim.trace_sample(stream, 400, 60_000);
     sim.add_node(false, &cfg_with(timeouts[0], None));
     sim.add_node(false, &cfg_with(timeouts[1], Some(ka)));
     let a0 = sim.nodes[0].addr;
@@ -159,6 +163,7 @@ fn hetero_ka_case(timeouts: &[u32], ka: u32, secs: i64, stream: u64) -> Value {
 /// a node whose current announcement interval is long gets a new peer that advertises a small timeout
 fn latejoin_case(own_to: u32, late_to: u32, secs: i64, stream: u64) -> Value {
     let mut sim: Sim<Packet> = Sim::new(stream);
+    sim.trace_sample(stream, 400, 60_000);
     for t in [own_to, own_to] {
         if try_add(&mut sim, &cfg_with(t, None)).is_err() {
             return json!({"op":"latejoin","own_to":own_to,"late_to":late_to,"secs":secs,"res":"panic-config","removals":0,"first":"none","panics":1});
@@ -184,6 +189,7 @@ fn latejoin_case(own_to: u32, late_to: u32, secs: i64, stream: u64) -> Value {
 /// entry's expiry, not computed from its value).
 fn silence_case(timeout: u32, peer_timeout: u32, peer_ka: Option<u32>, ts: i64, stream: u64) -> Value {
     let mut sim: Sim<Packet> = Sim::new(stream);
+    sim.trace_sample(stream, 400, 60_000);
     let mut c0 = cfg_with(timeout, None);
     c0.claims = vec!["10.1.0.0/16".into()];
     let mut c1 = cfg_with(peer_timeout, peer_ka);
@@ -238,6 +244,7 @@ fn silence_case(timeout: u32, peer_timeout: u32, peer_ka: Option<u32>, ts: i64, 
 /// a configured peer that never answers: times of fresh dial attempts (a retransmission repeats the same bytes)
 fn backoff_case(secs: i64, stream: u64) -> Value {
     let mut sim: Sim<Packet> = Sim::new(stream);
+    sim.trace_sample(stream, 400, 60_000);
     sim.add_node(false, &cfg_with(300, None));
     sim.add_reconnect(0, addr_of(50));
     let mut dials: Vec<i64> = vec![];
@@ -246,6 +253,7 @@ fn backoff_case(secs: i64, stream: u64) -> Value {
     for _ in 0..secs {
         sim.now += 1;
         crate::util::MockTimeSource::set_time(sim.now);
+        sim.note_time();
         let r = sim.housekeep(0);
         for d in &r.sent {
             if d.to == addr_of(50) && d.bytes.first() == Some(&0xff) && d.bytes != last_bytes {
@@ -343,5 +351,6 @@ pub fn run(tier: &str, out_path: &str) -> Value {
         }
     }
     let events = t.finish();
-    json!({"runs": jobs.len(), "steps": events, "events": events})
+    let cloud = write_cloud_blocks(&format!("{}.cloud", out_path));
+    json!({"runs": jobs.len(), "steps": events, "events": events, "cloud_events": cloud})
 }
